@@ -70,7 +70,7 @@ def slices(tier, rng):
         # three types with two fields each exceed 10^6 descriptions: T0 and T1 have exactly two by-value / pointer fields, T2 at most one
         out.append(Slice('k3-nf2-ps4', 't_graph', 3 + 7 * 3, lambda a: assume(a, 3, 4, 2, [1, 2], [0], nf_exact=[2, 2, None]) + [z3.ULE(a[3 + 7 * 2 + 1], 1)],
                          opts={'must_reach': ['ok', 'err']}, ctx={'k': 3, 'ps': 4}))
-        out.append(mk('k4-nf1-ps4', 4, 4, 1, [0, 1, 2, 5], [0, 3]))
+        out.append(mk('k4-nf1-ps4', 4, 4, 1, [0, 1, 2, 5], [0]))
     for ps in ((4,) if tier == 'quick' else (4, 8)):
         out.append(Slice('names-ps%d' % ps, 't_names', 9, lambda a, ps=ps: names_assume(a, ps, tier), opts={'must_reach': ['ok', 'err']}, ctx={'k': 0}))
     return out
@@ -126,7 +126,7 @@ def names_assume(a, ps, tier):
     # at most two (thorough: three) positions deviate from u32 at a time — every pair (triple) of positions, every kind; all seven
     # positions freely would be 6 * 10^5 descriptions
     dev = [z3.If(a[i] != 0, z3.BitVecVal(1, 8), z3.BitVecVal(0, 8)) for i in range(2, 9)]
-    A.append(z3.ULE(sum(dev[1:], dev[0]), 2 if tier == 'quick' else 3))
+    A.append(z3.ULE(sum(dev[1:], dev[0]), 3 if (tier != 'quick' and ps == 4) else 2))
     return A
 
 
